@@ -18,8 +18,8 @@ func init() {
 	core.Register(&core.Check{
 		ID: "C42", Level: "proof", Title: "Quorum thresholds guarantee intersection",
 		Technique: "expression-tree extraction from SSA + quasi-linear normal forms decided for all N",
-		Explain: "Proof obligations, each discharged for ALL N by quasi-linear normal forms (an integer tree over one variable built from + − ×const ÷const is f(N+P)=f(N)+s with P the product of its divisors once every division numerator is non-negative; equality / positivity for all N >= n0 is decided on finitely many residues of the EXTRACTED tree — the program is not run): (A) every threshold expression of the node — enumerated as every integer division by 3 or 7 inside the anchored packages (ledger store, node_manager, consensus_vote, signature_manager, vbft, the Ontology/NEO-N3/Tendermint light clients), climbed to its maximal arithmetic tree over a single count — equals the formula the property assigns to its site: N−⌊(N−1)/3⌋ (block acceptance, vbft commit, NEO-N3 state validators), N−⌊6N/7⌋ (legacy), ⌈2N/3⌉ (governance, votes, signatures), ⌊2N/3⌋ (+1 by strict comparison: Tendermint power); a division site the table does not list makes the check BROKEN; (B) with f=⌊(N−1)/3⌋: 2(N−f)−N > f and 2⌈2N/3⌉−N > f for all N>=1, and the mixed case (N−f)+⌈2N/3⌉−N > f, so any two accepting sets share more than f validators. Assumption: no integer overflow (N is a len or a count, < 2^31; Tendermint power < 2^62/2).",
-		Run: runC42,
+		Explain:   "Proof obligations, each discharged for ALL N by quasi-linear normal forms (an integer tree over one variable built from + − ×const ÷const is f(N+P)=f(N)+s with P the product of its divisors once every division numerator is non-negative; equality / positivity for all N >= n0 is decided on finitely many residues of the EXTRACTED tree — the program is not run): (A) every threshold expression of the node — enumerated as every integer division by 3 or 7 inside the anchored packages (ledger store, node_manager, consensus_vote, signature_manager, vbft, the Ontology/NEO-N3/Tendermint light clients), climbed to its maximal arithmetic tree over a single count — equals the formula the property assigns to its site: N−⌊(N−1)/3⌋ (block acceptance, vbft commit, NEO-N3 state validators), N−⌊6N/7⌋ (legacy), ⌈2N/3⌉ (governance, votes, signatures), ⌊2N/3⌋ (+1 by strict comparison: Tendermint power); a division site the table does not list makes the check BROKEN; (B) with f=⌊(N−1)/3⌋: 2(N−f)−N > f and 2⌈2N/3⌉−N > f for all N>=1, and the mixed case (N−f)+⌈2N/3⌉−N > f, so any two accepting sets share more than f validators. Assumption: no integer overflow (N is a len or a count, < 2^31; Tendermint power < 2^62/2).",
+		Run:       runC42,
 	})
 }
 
@@ -31,17 +31,17 @@ type thrSite struct {
 
 // frozen table: function → allowed formulas for the division trees found in it
 var c42Table = map[string][]string{
-	"(*core/store/ledgerstore.LedgerStoreImp).verifyHeader":              {"N-(N-1)/3", "N-6N/7"},
-	"native/service/governance/node_manager.CheckConsensusSigns":         {"ceil(2N/3)"},
-	"native/service/cross_chain_manager/consensus_vote.CheckVotes":       {"ceil(2N/3)"},
-	"native/service/governance/signature_manager.CheckSigns":             {"ceil(2N/3)"},
-	"consensus/vbft.getCommitConsensus":                                  {"N-(N-1)/3"},
-	"native/service/header_sync/cosmos.VerifyCosmosHeader":               {"floor(2N/3)"},
-	"native/service/header_sync/okex.VerifyCosmosHeader":                 {"floor(2N/3)"},
-	"native/service/header_sync/polygon.VerifyCosmosHeader":              {"floor(2N/3)"},
-	"native/service/header_sync/neo3.VerifyCrossChainMsgSig":             {"N-(N-1)/3"},
-	"native/service/header_sync/neo3legacy.VerifyCrossChainMsgSig":       {"N-(N-1)/3"},
-	"consensus/vbft/config.GenesisChainConfig":                           {"floor(N/3)"},
+	"(*core/store/ledgerstore.LedgerStoreImp).verifyHeader":        {"N-(N-1)/3", "N-6N/7"},
+	"native/service/governance/node_manager.CheckConsensusSigns":   {"ceil(2N/3)"},
+	"native/service/cross_chain_manager/consensus_vote.CheckVotes": {"ceil(2N/3)"},
+	"native/service/governance/signature_manager.CheckSigns":       {"ceil(2N/3)"},
+	"consensus/vbft.getCommitConsensus":                            {"N-(N-1)/3"},
+	"native/service/header_sync/cosmos.VerifyCosmosHeader":         {"floor(2N/3)"},
+	"native/service/header_sync/okex.VerifyCosmosHeader":           {"floor(2N/3)"},
+	"native/service/header_sync/polygon.VerifyCosmosHeader":        {"floor(2N/3)"},
+	"native/service/header_sync/neo3.VerifyCrossChainMsgSig":       {"N-(N-1)/3"},
+	"native/service/header_sync/neo3legacy.VerifyCrossChainMsgSig": {"N-(N-1)/3"},
+	"consensus/vbft/config.GenesisChainConfig":                     {"floor(N/3)"},
 }
 
 // division sites that are not thresholds (frozen, with reason)
@@ -100,6 +100,24 @@ func runC42(c *core.Ctx) {
 				continue
 			}
 			allowed, listed := c42Table[name]
+			if !listed {
+				// a private helper whose every user is a listed quorum function computes that function's threshold
+				isListed := func(x *ssa.Function) bool { _, l := c42Table[ir.FuncName(x)]; return l }
+				users := c.P.EffectiveCallers(fn, isListed)
+				all := len(users) > 0 && fn.Parent() == nil && !token.IsExported(fn.Name())
+				for _, u := range users {
+					if !isListed(u) {
+						all = false
+					}
+				}
+				if all {
+					for _, u := range users {
+						allowed = append(allowed, c42Table[ir.FuncName(u)]...)
+						seenFn[ir.FuncName(u)] = true
+					}
+					listed = true
+				}
+			}
 			if !listed {
 				// float or big-number arithmetic? only integer BinOps are enumerated, so this is a new threshold site
 				c.Broken("C42.site-classified", fn, "threshold site listed in the table", c.P.Rel(fn.Pos()), "a division by 3 or 7 appears in a function the threshold table does not list: classify it")
